@@ -206,6 +206,21 @@ def _mape_arrays(case):
     y = np.array(case["y"], dtype=np.float64)
     p = np.array([np.nan if v is None else v for v in case["p"]], dtype=np.float64)
     w = None if case["w"] is None else np.array(case["w"], dtype=np.float64)
+    R = int(case.get("repeat") or 0)
+    if R > 1:
+        # a long series (thousands of observations): the drawn one repeated; the naive forecast is rebuilt on the long series so that it
+        # stays the previous value across every seam, holes at the repeated positions
+        holes = np.isnan(np.tile(p, R))
+        y = np.tile(y, R)
+        w = None if w is None else np.tile(w, R)
+        if case.get("naive"):
+            first = p[0]
+            p = np.concatenate([[first], y[:-1]])
+            holes[::len(case["y"])] = False
+            holes[0] = bool(np.isnan(first))
+            p[holes] = np.nan
+        else:
+            p = np.tile(p, R)
     return y, p, w
 
 
@@ -250,7 +265,7 @@ def check_mape_nonneg(case):
         require(v == 0, "mape:value-0/0", "ts_mape = %r for a perfect forecast of a constant series" % v, facts)
     return Outcome(["constant" if facts["constant"] else "varying", "weights" if w is not None else "no-weights",
                     "nan-first" if np.isnan(p[0]) else "no-nan", "container:" + case.get("container", "array"),
-                    "hole-in-forecasts" if np.isnan(p[1:]).any() else "no-hole"], len(y) >= 3)
+                    "hole-in-forecasts" if np.isnan(p[1:]).any() else "no-hole", "n>4096" if len(y) > 4096 else "n<=4096"], len(y) >= 3)
 
 
 def check_mape_naive(case):
@@ -259,7 +274,7 @@ def check_mape_naive(case):
     require(abs(v - 1.0) <= 1e-12, "mape:naive-not-1", "ts_mape(naive forecast) = %r" % v,
             dict(weights=w is not None, nan_first=bool(np.isnan(p[0])), container=case.get("container", "array")))
     return Outcome(["weights" if w is not None else "no-weights", "nan-first" if np.isnan(p[0]) else "first-arbitrary",
-                    "container:" + case.get("container", "array"), "hole-in-forecasts" if np.isnan(p[1:]).any() else "no-hole"], len(y) >= 3)
+                    "container:" + case.get("container", "array"), "hole-in-forecasts" if np.isnan(p[1:]).any() else "no-hole", "n>4096" if len(y) > 4096 else "n<=4096"], len(y) >= 3)
 
 
 @st.composite
@@ -300,8 +315,9 @@ def _mape_cases(draw, naive=False):
             for _ in range(draw(st.integers(1, 2))):
                 p[draw(st.integers(1, n - 1))] = None
     w = draw(st.one_of(st.none(), st.lists(st.integers(1, 32).map(lambda k: k / 4.0), min_size=n, max_size=n)))
+    repeat = 0 if draw(st.integers(0, 9)) else (4096 // n + draw(st.integers(1, 300)))
     return dict(y=y, p=p, w=w, container=draw(st.sampled_from(["array", "array", "list", "column", "series", "series-permuted"])),
-                series_args=draw(st.sampled_from(["both", "y", "p"])))
+                series_args=draw(st.sampled_from(["both", "y", "p"])), naive=bool(naive), repeat=repeat)
 
 
 CLAUSES = [
